@@ -30,11 +30,18 @@ prop("C16",
   explanation="Theorems in lean/BedVerif/Props/C16.lean; lemmas in Lemmas/{LapperCount,LapperFind,LapperInv,BSearch,Sort}.lean. Correspondence: Lapper histories via the verif-hooks re-export; observable count and find().count() per query; spec evaluated in Lean on the implementation's numbers.",
   classes=["qstop-eq-smallest-start", "qstart-eq-largest-stop", "qstart-eq-some-stop", "qstop-eq-some-start", "empty-set", "zero-length", "after-insert", "after-merge"])
 
-prop("C17", claimed=False,
+prop("C17",
   level_text="Proof (Lean 4): for every reachable Lapper and every query sequence with non-decreasing start through one cursor starting at 0, every seek = find = filter(overlap) (C17_seek_eq_find, C17_seek_eq_filter): the invariant 'every index below the cursor holds an interval starting before q.start - max_len' is re-established through both branches of seek (re-seed / advance). All index reads are guarded in the model exactly where the Rust guards them.",
   level_note="Trusted: " + KERNEL + "; " + MODEL + "; " + HARN + "; " + NAT + ". The absence of a panic / out-of-range access in the Rust itself is observed by the correspondence check (catch_unwind), not proved.",
   explanation="Theorems in lean/BedVerif/Props/C17.lean; lemmas in Lemmas/LapperSeek.lean.",
-  classes=[])
+  classes=["repeated-query", "past-last-interval", "before-first-interval", "cursor-at-end", "huge-over-small", "empty-set", "equal-starts-growing-stops", "after-merge"])
+
+prop("C11",
+  level_text="Proof (Lean 4): for every region sequence xs, GIntervalIndexSet::from_iter(xs) has get(i) = xs[i] (none beyond the end), len = |xs|, iteration order = supply order; find_index_of(q) is a permutation of the positions i with xs[i] overlapping q on the same chromosome, once per occurrence (C11_findIndexOf_perm); find_full pairs each position with the region stored there; find returns those regions; is_overlapped iff some region overlaps; GIntervalIndexMap::find never indexes out of range and returns the i-th values (C11_map_find). Corollaries of the map-level theorem of C02 (C02_gfind_perm).",
+  level_note="Trusted: " + KERNEL + "; " + MODEL + "; " + HARN + "; HashMap modelled as association list; " + NAT + ".",
+  explanation="Theorems in lean/BedVerif/Props/C11.lean on top of Props/C02.lean and Lemmas/GMap*.lean. Correspondence: all positional accessors for every index 0..len+2 (index() under catch_unwind), all four query forms and both IndexMap queries, as sorted multisets; spec evaluated in Lean directly on the supplied sequence.",
+  classes=["duplicates", "interleaved-chromosomes", "unsorted-coordinates", "empty-set", "query-hits-duplicates"],
+  extra_trusted=["std HashMap and Vec::sort contracts"])
 
 if __name__ == "__main__":
     json.dump(P, open(os.path.join(V, "props_meta.json"), "w"), indent=1, ensure_ascii=False)
